@@ -6,12 +6,15 @@ invariant theorem `backup_sat`.  No property statements here.
 namespace Conserve.Inv
 open Conserve Prog
 
-/-- Everything `backup` does before its main loop: lock check, basis band, new band, block
-listing, basis listing.  Returns the new band id, the names of the present blocks, the basis listing. -/
+/-- Everything `backup` does before its main loop: lock check, basis band, new band, second look
+at the lock (in the listing of the archive directory), block listing, basis listing.  Returns the new band id, the names of the present blocks, the basis listing. -/
 def backupPrelude : Prog (Nat × List Str × List IndexEntry) :=
   gcIsLocked.bind fun locked =>
     if locked = true then Prog.fail .gcLockHeld
-    else lastBandId.bind fun basisBand => bandCreate.bind fun band => listBlocks.bind fun blocks =>
+    else lastBandId.bind fun basisBand => bandCreate.bind fun band =>
+      gcLockListed.bind fun locked2 =>
+      if locked2 = true then Prog.fail .gcLockHeld
+      else listBlocks.bind fun blocks =>
       match basisBand with
       | some b => (listEntries b [slash] fun _ => false).bind fun basis => Prog.ret (band, blocks, basis)
       | none => Prog.ret (band, blocks, [])
@@ -32,8 +35,12 @@ theorem backup_eq (H : Str → Str) (o : BackupOpts) (src : List SrcEntry) :
   congr 1; funext locked
   cases locked
   · simp only [Bool.false_eq_true, if_false, Prog.inv_bind_assoc]
-    congr 1; funext basisBand; congr 1; funext band; congr 1; funext blocks
-    cases basisBand <;> simp [Prog.inv_bind_assoc, backupMain]
+    congr 1; funext basisBand; congr 1; funext band; congr 1; funext locked2
+    cases locked2
+    · simp only [Bool.false_eq_true, if_false, Prog.inv_bind_assoc]
+      congr 1; funext blocks
+      cases basisBand <;> simp [Prog.inv_bind_assoc, backupMain]
+    · simp
   · simp
 
 
@@ -106,7 +113,12 @@ theorem backupPrelude_sat (w : World) (hw : WOK H src s0 w) :
     intro basisBand w2 hf2 ⟨hst2, hnone⟩
     apply Sat.bind
     refine (Sat.of_allOps bandCreate_fine hf2.wok).mono ?_
-    intro band w3 hf3 _
+    intro band w3' hf3' _
+    apply Sat.bind
+    refine (Sat.of_ro' gcLockListed_ro hf3'.wok).mono ?_
+    intro locked2 w3 hf3 _
+    split
+    · exact Sat.fail hf3.wok
     apply Sat.bind
     refine ((Sat.of_ro' listBlocks_ro hf3.wok).and_run (Q' := fun hs _ => ExistsOK H w3.store hs)
       (listBlocks_result w3 hf3.wok.good.noDup hf3.wok.good.blocks)).mono ?_
